@@ -20,6 +20,8 @@ pub struct WelfordOnline<T: Float, V> {
     mean: T,
     m2: T,
     count: usize,
+    // number of most recent consecutive values that are equal to the newest one.
+    run_len: usize,
 }
 
 impl<T, V> WelfordOnline<T, V>
@@ -37,6 +39,7 @@ where
             mean: T::zero(),
             m2: T::zero(),
             count: 0,
+            run_len: 0,
         }
     }
 
@@ -84,6 +87,11 @@ where
         let Some(val) = self.view.last() else { return };
         debug_assert!(val.is_finite(), "value must be finite");
 
+        if self.q_vals.back() == Some(&val) {
+            self.run_len += 1;
+        } else {
+            self.run_len = 1;
+        }
         self.q_vals.push_back(val);
 
         if self.q_vals.len() > self.window_len {
@@ -91,6 +99,11 @@ where
             self.update_stats_remove(old_val);
         }
         self.update_stats_add(val);
+        if self.run_len >= self.count {
+            // The whole window is constant: drop the rounding residue of the values that left.
+            self.mean = val;
+            self.m2 = T::zero();
+        }
     }
 
     #[inline]
